@@ -168,6 +168,7 @@ def run(ctx):
     ctx.trust("sa/xeval.py interpreter; substitution I3 = t^6 (t > 0) to clear the rational powers")
     r1 = ctx.rule("R18.1", "law derivatives: every coefficient of the assembled dW and d2W equals the corresponding derivative of W", min_instances=5)
     r3 = ctx.rule("R18.3", "reference state: W = 0, isotropic stress W_1 + 2 W_2 + W_3 = 0 and fibre terms vanish at I1=I2=3, I3=1, I4=I6=1, I8=0", min_instances=5)
+    time_quadrature_rule(ctx)
     r4 = ctx.rule("R18.4", "objectivity by construction: the laws read the deformation only through invariants of C", min_instances=5)
     base = repo.cls(f"{LAWS}._HyperElastic")
     laws = [c for c in repo.subclasses(base) if c.name not in ("AutoDiff",) and all(m in c.methods and c.methods[m].cls is c for m in ("Compute_W", "Compute_dWde", "Compute_d2Wde"))]
@@ -242,3 +243,85 @@ def run(ctx):
                 rule.fail(f.qualname, o["ob"], f.file, f.lineno, f"{law}.{which}", f"{law}: {o['ob']} does NOT hold ({o['how']}; witness {o['witness']})")
     if randomised:
         r1.note(f"{randomised} identities decided by the randomised identity test (normal form not reached by the rewriting engine)")
+
+
+def time_quadrature_rule(ctx):
+    """R18.6: fixed-rule branch of TimeQuadratureStressTensor interpreted with symbolic weights: the averaged stress
+    is sum_k w_k dW(e(s_k)) and the tangent sum_k (w_k s_k / coefK) d2W(e(s_k)), where e(s) is the strain path between
+    the two END states (e(0) = state_n, e(1) = state_np1); the scheme's base state u_t never enters the average."""
+    from types import SimpleNamespace
+
+    from ..alg import is_zero
+    from ..xarray import XArray
+
+    repo = ctx.repo
+    r = ctx.rule("R18.6", "strain-path quadrature (energy-conserving stress): S_quad = sum_k w_k dW/de(e(s_k)), tangent sum_k (w_k s_k / coefK) d2W/de2(e(s_k)), e(s) on the segment between the strains of state_n and state_np1 for every node, weight and coefK", min_instances=4)
+    f = repo.func("EasyFEA.FEM.Operators.NonLinear.TimeQuadratureStressTensor")
+    # the fixed-rule block: the `if` whose body loops over the Clenshaw-Curtis nodes
+    blk = None
+    for n in ast.walk(f.node):
+        if isinstance(n, ast.If):
+            for st in n.body:
+                if isinstance(st, ast.For) and "clenshaw_curtis" in norm_text(st.iter):
+                    blk = (n, st)
+    if blk is None:
+        raise AnalysisError("TimeQuadratureStressTensor: fixed Clenshaw-Curtis loop not found")
+    ifnode, loop = blk
+    acc = {}
+    for n in ast.walk(loop):
+        if isinstance(n, ast.AugAssign) and isinstance(n.target, ast.Name):
+            for c in ast.walk(n.value):
+                if isinstance(c, ast.Call) and isinstance(c.func, ast.Attribute) and c.func.attr in ("Compute_dWde", "Compute_d2Wde"):
+                    acc[c.func.attr] = n.target.id
+    if set(acc) != {"Compute_dWde", "Compute_d2Wde"}:
+        raise AnalysisError("TimeQuadratureStressTensor: accumulators of Compute_dWde / Compute_d2Wde not found")
+    params = f.params()
+    half = Q(1, 2)
+    rules = {1: [half], 2: [Q(0), Q(1)], 3: [Q(0), half, Q(1)], 5: [Q(0), Q(1, 7), half, Q(6, 7), Q(1)]}
+
+    class St:
+        def __init__(self, tag):
+            self.tag = tag
+            self.groupElem = SimpleNamespace(Ne=1)
+
+    for coefK in (half, Q(1), Q(3, 4)):
+        for npts, nodes in rules.items():
+            r.instance(fn=f.qualname)
+            ws = [Poly.var(f"w{k}") for k in range(len(nodes))]
+            sn, st, snp = St("path:0"), St("T"), St("path:1")
+
+            def hk(fn, args, kwargs, nodes=nodes, ws=ws):
+                if isinstance(fn, FuncInfo) and fn.name.endswith("clenshaw_curtis"):
+                    return (list(nodes), list(ws))
+                if isinstance(fn, (FuncInfo,)) and fn.name == "_StrainPathState" or getattr(fn, "name", "") == "_StrainPathState":
+                    a, b, s = args[0], args[1], args[2]
+                    if a.tag != "path:0" or b.tag != "path:1":
+                        return St(f"badpath({a.tag},{b.tag},{s})")
+                    return St(f"path:{Q(s)}")
+                return NotImplemented
+
+            I = Interp(repo)
+            I.call_hook = hk
+            material = SimpleNamespace(Compute_dWde=lambda s: Poly.var("dW[" + s.tag + "]"), Compute_d2Wde=lambda s: Poly.var("d2W[" + s.tag + "]"))
+            env = {}
+            vals = dict(material=material, state_n=sn, state_t=st, state_np1=snp, coefK=coefK, nPoints=npts, groupElem=SimpleNamespace(Ne=1))
+            for p in params:
+                env[p] = vals.get(p, None)
+            for k, v in vals.items():
+                env.setdefault(k, v)
+            # locals defined before the block and read inside it
+            pre = {}
+            for stt in f.node.body:
+                if stt is ifnode:
+                    break
+                if isinstance(stt, ast.Assign) and isinstance(stt.targets[0], ast.Name) and norm_text(stt.value) in ("state_t.groupElem",):
+                    pre[stt.targets[0].id] = SimpleNamespace(Ne=1)
+            env.update(pre)
+            got_dw, got_d2 = I.run_statements(ifnode.body, env, f.module, [acc["Compute_dWde"], acc["Compute_d2Wde"]])
+            want_dw = sum((ws[k] * Poly.var(f"dW[path:{Q(s)}]") for k, s in enumerate(nodes)), Poly())
+            want_d2 = sum((ws[k] * s / coefK * Poly.var(f"d2W[path:{Q(s)}]") for k, s in enumerate(nodes) if s != 0), Poly())
+            if is_zero(got_dw - want_dw) and is_zero(got_d2 - want_d2):
+                r.ok(f"nPoints={npts}, coefK={coefK}: path average of dW and s-weighted d2W")
+            else:
+                r.fail(f.qualname, f"path-average:n{npts}:k{coefK}", f.file, loop.lineno, "TimeQuadratureStressTensor",
+                       f"nPoints={npts}, coefK={coefK}: averaged stress {got_dw!r} / tangent {got_d2!r}; expected {want_dw!r} / {want_d2!r} (every node on the strain path between the end states): S_quad : de != dW, the discrete energy balance is lost")
